@@ -1,0 +1,17 @@
+//go:build !verif
+
+// Package verifhook provides named yield points used by the verification harness in /verif.
+// With the verif build tag off every call compiles to nothing.
+package verifhook
+
+// Func is invoked with the name of the hook point being passed.
+type Func func(point string)
+
+// Enabled reports whether hooks are compiled in.
+const Enabled = false
+
+// Set installs fn as the hook handler, nil removes it.
+func Set(Func) {}
+
+// At marks a hook point.
+func At(string) {}
